@@ -86,7 +86,11 @@ def in_c02_domain(octets: bytes, item: dict, stuffing: bool, abort: bool) -> boo
 
 def clean_frame(rng, stuffing: bool, abort: bool, seq=None, flag_free: bool = False, small: bool = False) -> dict:
     while True:
-        item = frame_fields(rng, seq, small=small)
+        item = None
+        if rng.random() < 0.004:
+            item = special_frame(rng, seq)  # rare check-sequence values: 0000, FFFF, flag/escape octets
+        if item is None:
+            item = frame_fields(rng, seq, small=small)
         octets = build(item)
         if not in_c02_domain(octets, item, stuffing, abort):
             continue
@@ -232,3 +236,67 @@ def noise(rng, stuffing: bool, max_len: int = 300) -> tuple[bytes, str]:
             out += bytes([FLAG]) * rng.randint(1, 3) + rand_bytes(rng, rng.randint(0, 9), 0.2)
         return bytes(out), kind
     return bytes([ESC]) * rng.randint(1, 5) + rng.choice([b"", b"\x7e", b"\x7e\x7d"]), "escape_run"
+
+
+# -- frames whose check sequences take rare values (0x0000, 0xFFFF, flag/escape octets ...) --------------
+
+_FCS_TABLE = None
+SPECIAL_SEQ = [b"\x00\x00", b"\xff\xff", b"\x7e\x7e", b"\x7d\x7d", b"\x7e\x00", b"\x00\x7e", b"\x7d\x5e", b"\x00\x7d", b"\x7d\x00", b"\x5e\x5d"]
+
+
+def _fcs_table():
+    global _FCS_TABLE
+    if _FCS_TABLE is None:
+        t = []
+        for b in range(256):
+            r = b
+            for _ in range(8):
+                r = (r >> 1) ^ 0x8408 if r & 1 else r >> 1
+            t.append(r)
+        _FCS_TABLE = t
+    return _FCS_TABLE
+
+
+def _fcs_fast(data: bytes, reg: int = 0xFFFF) -> int:
+    t = _fcs_table()
+    for b in data:
+        reg = (reg >> 8) ^ t[(reg ^ b) & 0xFF]
+    return reg
+
+
+def special_frame(rng, seq=None):
+    """A well-formed frame whose header check sequence or frame check sequence is one of SPECIAL_SEQ
+    (searched with a table-driven FCS, confirmed by the bit-serial reference in build()). May return None."""
+    want = rng.choice(SPECIAL_SEQ)
+    info = bytearray(rand_bytes(rng, rng.choice([4, 6, 9, 20]), 0.1))
+    if seq is not None:
+        info[0:4] = bytes((0xA5, (seq >> 8) & 0xFF, seq & 0xFF, 0x5A))
+    if rng.random() < 0.5:
+        # header check sequence: search over control octet and a 2-octet source address
+        total = 2 + 1 + 2 + 1 + 2 + len(info) + 2
+        fmt = 0xA000 | total
+        head0 = bytes((fmt >> 8, fmt & 0xFF, 0x03))
+        base = _fcs_fast(head0)
+        for a in range(128):
+            for b in range(128):
+                for ctl in (0x13, 0x10, 0x93, 0x73):
+                    tail = bytes((a << 1, (b << 1) | 1, ctl))
+                    v = _fcs_fast(tail, base) ^ 0xFFFF
+                    if bytes((v & 0xFF, v >> 8)) == want:
+                        return {"t": "frame", "dest": "03", "src": tail[:2].hex(), "ctl": ctl, "fmt": 0xA, "seg": False, "info": bytes(info).hex(), "special": "hcs=" + want.hex()}
+        return None
+    # frame check sequence: search over the last two information octets
+    item = {"t": "frame", "dest": "03", "src": "21", "ctl": 0x13, "fmt": 0xA, "seg": False, "info": bytes(info).hex()}
+    octets = build(item)
+    base = _fcs_fast(octets[:-4])
+    t = _fcs_table()
+    for x in range(256):
+        r1 = (base >> 8) ^ t[(base ^ x) & 0xFF]
+        for y in range(256):
+            v = ((r1 >> 8) ^ t[(r1 ^ y) & 0xFF]) ^ 0xFFFF
+            if (v & 0xFF) == want[0] and (v >> 8) == want[1]:
+                info[-2:] = bytes((x, y))
+                item["info"] = bytes(info).hex()
+                item["special"] = "fcs=" + want.hex()
+                return item
+    return None
